@@ -1,13 +1,18 @@
 #!/bin/bash
-# false-alarm sweep: every quick check under other seeds on the unchanged tree (evidence/work kept aside)
-out=/verif/work/seedsweep.txt
-: > $out
+# false-alarm sweep: every quick check under other seeds on the unchanged tree (evidence/work kept aside);
+# one background process per seed; results in /verif/work/seedsweep_<seed>.txt
 for seed in "$@"; do
+  (
+  out=/verif/work/seedsweep_$seed.txt
+  : > $out
   for p in C01 C02 C03 C04 C05 C06 C07 C08 C09 C10 C11 C12 C13 C14 C15 C16 C17 C18 C19 C20; do
-    r=$(cd /verif && VERIF_SEED=$seed VERIF_EVID=/tmp/sweep_evid VERIF_WORK=/tmp/sweep_work ./check $p quick 2>&1)
+    r=$(cd /verif && VERIF_JOBS=6 VERIF_SEED=$seed VERIF_EVID=/tmp/sweep_evid_$seed VERIF_WORK=/tmp/sweep_work_$seed ./check $p quick 2>&1)
     rc=$?
     echo "seed=$seed $p rc=$rc $(echo "$r" | grep -E '^\[C' | cut -c1-160)" >> $out
     echo "$r" | grep -E "VIOLATION|TOOL-ERROR|  \(" | head -5 | cut -c1-300 >> $out
   done
+  echo DONE >> $out
+  rm -rf /tmp/sweep_evid_$seed /tmp/sweep_work_$seed
+  ) &
 done
-echo DONE >> $out
+wait
